@@ -11,6 +11,7 @@ import Cpf.Scan.Build
 import Cpf.Scan.Attrs
 import Cpf.Rules.RuleFile
 import Cpf.Rules.Ci
+import Cpf.Rules.Bundle
 import Cpf.Generated.Grammar
 
 open Cpf.Query Cpf.Go Cpf.Generated
@@ -203,6 +204,17 @@ def handle (fields : List String) : List String :=
       let es := sarifEntries fields.length fields []
       (Cpf.Rules.sarifRules es).map String.ofList ++ ["--"] ++
         (Cpf.Rules.sarifResults es).flatMap (fun r => [String.ofList r.ruleId, String.ofList r.level, String.ofList r.message, r.file, toString r.line])
+  | "jsonescape" :: strs => strs.map (fun s => "\"" ++ String.ofList (Cpf.Rules.Json.escape s.toList) ++ "\"")
+  | "bundle" :: fields =>
+      -- fields: name, content, name, content … (sorted by name) -> the contents the loader is predicted to see
+      let rec files (fs : List String) : List Cpf.Rules.Bundle.File :=
+        match fs with
+        | n :: c :: rest => { name := n.toList, content := c.toList } :: files rest
+        | _ => []
+      (Cpf.Rules.Bundle.consume (Cpf.Rules.Bundle.produce (files fields))).map (fun o =>
+        match o with
+        | some c => String.ofList c
+        | none => "<undecodable>")
   | ["cond", q] =>
       match prepare q.toList with
       | .ok p =>
